@@ -222,15 +222,16 @@ def run(ctx, cases_override=None):
     if head.get("readrange") != "real":
         raise MachineryError("harness was not built with the readRange overlay")
     j = run_judge(ctx, "LayoutTrace", tpath, "c06", slices=12 if not ctx.thorough else 14)
-    if j["UNEXP"]:
-        cid, u = j["UNEXP"][0]
-        raise MachineryError("%d record(s) where pint did not find the rules the layout wrote (rendering bug or parser change): "
-                             "case %s %s\n%s" % (len(j["UNEXP"]), cid, json.dumps(u), "\n".join(cases[cid - 1]["lines"])))
     viols = []
     for cid, v in j["VIOL"]:
         c = cases[cid - 1]
         viols.append({"sig": sig_of(v), "what": WHAT[v["kind"]] % v, "case": {"lay": c["lay"], "lines": c["lines"], "base": c["base"]},
                       "detail": v})
+    # binding failures make the run unusable (exit 2) - unless real violations were found as well: those stand
+    if j["UNEXP"] and not vlib.partition_violations(ctx.prop, viols)[1]:
+        cid, u = j["UNEXP"][0]
+        raise MachineryError("%d record(s) where pint did not find the rules the layout wrote (rendering bug or parser change): "
+                             "case %s %s\n%s" % (len(j["UNEXP"]), cid, json.dumps(u), "\n".join(cases[cid - 1]["lines"])))
     if os.environ.get("C06_DUMP"):
         write_ndjson(os.environ["C06_DUMP"], [dict(v, id=cid, lines=cases[cid - 1]["lines"]) for cid, v in j["VIOL"]]
                      + [dict(d, id=cid, drift=True, lines=cases[cid - 1]["lines"]) for cid, d in j["DRIFT"]])
